@@ -16,6 +16,7 @@ add("C13", "checks/c13_lexer.c", ["default-plain", "default-asan", "uchar-plain"
     "numberOfParameters 0 vs -1 for header + white space only",
     extra_sources=["kit/ref_lex.c"],
     exhaustive=dict(quick=True, thorough=True),
+    rule_more="uchar and C90 flavours; 1..1200 parameters per unit; run lengths at multiples of 256; well-formed units through the input function cut in two at every position; line ending LF / CR flavours",
     technique="differential runtime monitor: the 17 recognisers of the real library against table-driven longest-match automata written from "
               "IEEE 488.2 section 7 / DESIGN.md, bounded-exhaustive string enumeration with every end-of-input cut, tokens pre-filled with 0x5A, "
               "exact-size heap cells under ASan+UBSan",
